@@ -1,61 +1,15 @@
 #!/usr/bin/env python3
-"""Benign-variant generator: rename every local variable (not parameters, not attributes, not globals) of every function
-in src/datashard to <name>_rn, write the package to a scratch dir and run all checks: no VIOLATION may appear."""
-import ast, builtins, os, shutil, subprocess, sys, tempfile
-
-class Renamer(ast.NodeTransformer):
-    def __init__(self, names): self.names = names
-    def visit_Name(self, n):
-        if n.id in self.names: n.id = n.id + "_rn"
-        return n
-    def visit_ExceptHandler(self, n):
-        if n.name in self.names: n.name = n.name + "_rn"
-        self.generic_visit(n); return n
-    def visit_FunctionDef(self, n):  # nested function: handled separately, but free variables must follow
-        self.generic_visit(n); return n
-
-def locals_of(fn):
-    params = {a.arg for a in fn.args.posonlyargs + fn.args.args + fn.args.kwonlyargs}
-    if fn.args.vararg: params.add(fn.args.vararg.arg)
-    if fn.args.kwarg: params.add(fn.args.kwarg.arg)
-    stores, globs, imported, nested = set(), set(), set(), set()
-    for n in ast.walk(fn):
-        if isinstance(n, ast.Name) and isinstance(n.ctx, ast.Store): stores.add(n.id)
-        elif isinstance(n, (ast.Global, ast.Nonlocal)): globs |= set(n.names)
-        elif isinstance(n, (ast.Import, ast.ImportFrom)):
-            for a in n.names: imported.add((a.asname or a.name).split(".")[0])
-        elif isinstance(n, ast.ExceptHandler) and n.name: stores.add(n.name)
-        elif isinstance(n, (ast.FunctionDef, ast.AsyncFunctionDef)) and n is not fn: nested.add(n.name)
-    # keyword-argument names used at calls of nested functions are untouched (they are params of the nested def)
-    inner_params = set()
-    for n in ast.walk(fn):
-        if isinstance(n, (ast.FunctionDef, ast.Lambda)) and n is not fn:
-            inner_params |= {a.arg for a in n.args.args + n.args.kwonlyargs}
-    return (stores - params - globs - imported - nested - inner_params - set(dir(builtins)))
-
-def main():
-    src = "/repo/src/datashard"
-    tmp = tempfile.mkdtemp(prefix="sa_rename_")
-    dst = os.path.join(tmp, "src", "datashard"); os.makedirs(dst)
-    total = 0
-    for fn in sorted(os.listdir(src)):
-        if not fn.endswith(".py"): continue
-        tree = ast.parse(open(os.path.join(src, fn)).read())
-        # top-level functions and methods only (nested functions share the parent's renaming through free variables)
-        tops = [n for n in tree.body if isinstance(n, (ast.FunctionDef, ast.AsyncFunctionDef))]
-        for c in [n for n in tree.body if isinstance(n, ast.ClassDef)]:
-            tops += [n for n in c.body if isinstance(n, (ast.FunctionDef, ast.AsyncFunctionDef))]
-        for f in tops:
-            names = locals_of(f)
-            total += len(names)
-            Renamer(names).visit(f)
-        out = ast.unparse(tree) + "\n"
-        compile(out, fn, "exec")
-        open(os.path.join(dst, fn), "w").write(out)
-    print(f"renamed {total} locals -> {tmp}")
-    p = subprocess.run(["/venv/bin/python", "/verif/sa/check.py", "--all", "--no-evidence", "--repo", tmp], capture_output=True, text=True)
-    bad = [l for l in p.stdout.splitlines() if "FAILS" in l or "ANALYSIS-ERROR" in l or "VIOLATION" in l]
-    for l in bad: print(l[:400])
-    if "--keep" not in sys.argv: shutil.rmtree(tmp, ignore_errors=True)
-    print("violations/errors:", len(bad))
-main()
+"""Benign-variant test: rename every local variable of the package and run all checks: no VIOLATION / ANALYSIS-ERROR may appear."""
+import shutil, subprocess, sys
+sys.path.insert(0, "/verif")
+from sa.benign_gen import rename_locals_copy
+tmp, total = rename_locals_copy(sys.argv[1] if len(sys.argv) > 1 and not sys.argv[1].startswith("-") else "/repo")
+print(f"renamed {total} locals -> {tmp}")
+p = subprocess.run(["/venv/bin/python", "/verif/sa/check.py", "--all", "--no-evidence", "--repo", tmp], capture_output=True, text=True)
+bad = [l for l in p.stdout.splitlines() if "FAILS" in l or "ANALYSIS-ERROR" in l or "VIOLATION" in l]
+for l in bad:
+    print(l[:400])
+if "--keep" not in sys.argv:
+    shutil.rmtree(tmp, ignore_errors=True)
+print("violations/errors:", len(bad))
+sys.exit(1 if bad else 0)
